@@ -940,7 +940,7 @@ impl Check for C08 {
         }
     }
     fn rule(&self) -> String {
-        "CONTROLLED: the lsp hook callback blocks every server thread at its acquisition points (file-table read/write, salsa input write, task start); a scheduler grants one thread at a time, only when the modelled lock state lets the real acquisition succeed, and enumerates all grant orders depth-first by re-running the scenario on the real server (real tokio runtime, real locks) with a forced choice prefix. Scenarios: handler in {didChange of the root, didOpen of another document, didChange of an included open document, didChange of the root with unchanged text} against one in-flight snapshot task of each of the 9 kinds (8 request kinds + the diagnostics task of a preceding edit), quick also 2 and thorough all two-task combinations. A state where threads wait and none can be granted is a deadlock; the wait-for cycle over holders (not queue positions) is the witness; afterwards every request must have its response and the server must become idle. STRESS: uncontrolled sessions of 40-120 messages (edit bursts mixed with all request kinds) on a workspace whose analysis takes milliseconds, with seeded delays injected at the acquisition points; the same wait-for graph is maintained online and a stall is a violation only if it shows a cycle (a bare watchdog is no verdict). non-trivial = every schedule / session; distinct = distinct grant sequences".into()
+        "CONTROLLED: the lsp hook callback blocks every server thread at its acquisition points (file-table read/write, salsa input write, task start); a scheduler grants one thread at a time, only when the modelled lock state lets the real acquisition succeed, and enumerates all grant orders depth-first by re-running the scenario on the real server (real tokio runtime, real locks) with a forced choice prefix. Scenarios: handler in {didChange of the root, didOpen of another document, didChange of an included open document, didChange of the root with unchanged text} against one in-flight snapshot task of each of the 9 kinds (8 request kinds + the diagnostics task of a preceding edit), quick also 2 and thorough all two-task combinations. A state where threads wait and none can be granted is a deadlock; the wait-for cycle over holders (not queue positions) is the witness; afterwards every request must have its response and the server must become idle. STRESS: uncontrolled sessions of 40-120 messages (edit bursts mixed with all request kinds) on a workspace whose analysis takes milliseconds, with seeded delays injected at the acquisition points; the same wait-for graph is maintained online and a stall is a violation only if it shows a cycle or passes the stall certificate (main loop inside a handler, every live snapshot task started, all of them asleep in one unchanged futex wait at two /proc/self/task samples while the monitor holds nobody back); a bare watchdog is no verdict. The same certificate decides a controlled schedule in which a granted thread never reaches its next hooked point. non-trivial = every schedule / session; distinct = distinct grant sequences".into()
     }
     fn floors(&self, tier: Tier) -> Vec<(&'static str, u64)> {
         vec![("schedules", tier.pick(60, 1000)), ("handler:DidChangeRoot", 20), ("handler:DidOpenOther", 20), ("handler:DidChangeIncluded", 20), ("handler:DidChangeRootSameText", 20), ("task:Diagnostics", 6), ("task:Definition", 6), ("task:DocumentLink", 3), ("stress_sessions", tier.pick(16, 300)), ("event:VfsReadHeld", 100), ("event:SalsaWriteDone", 100)]
@@ -950,7 +950,8 @@ impl Check for C08 {
     }
     fn assumptions(&self) -> Vec<String> {
         vec![
-            "locks taken at un-hooked places are invisible to the controlled mode (they would show as a watchdog, i.e. no verdict, or in the stress mode)".into(),
+            "locks taken at un-hooked places are invisible to the wait-for graph; a stall through one is decided by the stall certificate (main loop inside a handler and every live snapshot task asleep in the same futex wait at two /proc samples, with the monitor in Free mode), anything short of that is a watchdog, i.e. no verdict".into(),
+            "the main loop runs under block_on on a non-worker thread and snapshot tasks on the blocking pool, as in crates/lsp/src/main.rs".into(),
             "the file table is a std::sync::RwLock (futex implementation): a read request queues behind a write request that arrived earlier (writer preference), which the model reproduces; a re-entrant read by one thread is therefore a deadlock in the schedule where a writer arrives in between".into(),
         ]
     }
